@@ -8,6 +8,7 @@ import (
 	"math"
 	"os"
 	"sync/atomic"
+	"unicode/utf8"
 
 	"github.com/twpayne/go-geom"
 
@@ -136,4 +137,21 @@ func axisParallelCrossings() [][8]float64 {
 		}
 	}
 	return out
+}
+
+// Replay files are JSON, and a Go string that is not valid UTF-8 does not survive a JSON string
+// (encoding/json substitutes U+FFFD). Cases that carry raw input text therefore store such texts
+// as bytes next to the string field; these helpers do the splitting and joining.
+func splitText(s string) (string, []byte) {
+	if utf8.ValidString(s) {
+		return s, nil
+	}
+	return "", []byte(s)
+}
+
+func joinText(s string, b []byte) string {
+	if b != nil {
+		return string(b)
+	}
+	return s
 }
